@@ -1,5 +1,6 @@
 import Psa.Eval
 import Psa.Generated.Tables
+import Psa.ExpectedFacts
 /-! # C19 — the user-namespace relaxation is opt-in and limited to three controls
 The switch (`relaxPolicyForUserNamespacePods`) is the `relax` parameter of every model revision. -/
 namespace PSA.Props
@@ -47,10 +48,15 @@ theorem C19_eval_on_frame (lv : LevelVersion) (p : Pod) (h : p.hostUsers ≠ som
 example : (runRev Generated.tables false .runAsUser23 { hostUsers := some false, sc := some { runAsUser := some 0 } }).allowed = false ∧
           (runRev Generated.tables true .runAsUser23 { hostUsers := some false, sc := some { runAsUser := some 0 } }).allowed = true := by decide
 
+/-- tie obligation (F4): exactly the three waived controls read `hostUsers` (through the gated helper) -/
+theorem C19_only_three_read_hostUsers :
+    Expected.readsHostUsers Generated.readSets = [b!"procMount", b!"runAsNonRoot", b!"runAsUser"] := by decide
+
 #print axioms C19_off
 #print axioms C19_on_frame
 #print axioms C19_on_three_waived
 #print axioms C19_on_others
 #print axioms C19_eval_off
 #print axioms C19_eval_on_frame
+#print axioms C19_only_three_read_hostUsers
 end PSA.Props
